@@ -117,7 +117,18 @@ Hypothesis Hrec : forall s st a b s' r, rec s st a b = Ok s' r -> dframe st s s'
 Lemma rec_frameX stk ex s a b s' r : rec s stk a b = Ok s' r -> dframeX stk ex s s'.
 Proof. intros H. eapply dframe_weaken; [|eapply Hrec; exact H]. auto. Qed.
 
-(* _livepatch__function writes a function object only *)
+Lemma cell_step_frame stk ex c1 c2 s s' r : cell_step rec stk c1 c2 s = Ok s' r -> dframeX stk ex s s'.
+Proof.
+  unfold cell_step. destruct (cell_val (hp s) c1) as [a|]; [|discriminate].
+  destruct (cell_val (hp s) c2) as [b|]; [|discriminate].
+  intros H. apply bind_ok in H. destruct H as [s2 [u [Hr H]]].
+  eapply dframeX_trans; [eapply rec_frameX; exact Hr|].
+  destruct (u =? a)%N; [inversion H; subst; apply dframeX_refl|].
+  destruct (cell_val (hp s2) c1) as [v|] eqn:Ec; [|discriminate]. inversion H; subst.
+  apply dframeX_upd. right. intros e He. unfold cell_val in Ec. rewrite He in Ec. discriminate.
+Qed.
+
+(* _livepatch__function writes a function object (and its cells) only *)
 Lemma patch_function_frame stk ex s fo fn s' r :
   patch_function rec s stk fo fn = Ok s' r -> dframeX stk ex s s'.
 Proof.
@@ -133,7 +144,7 @@ Proof.
   eapply dframeX_trans; [exact Hu|].
   eapply dframeX_trans; [eapply rec_frameX; exact H1|].
   eapply (patch_cells_inv rec (fun sx => dframeX stk ex s2 sx)); [| |exact H2].
-  - intros s0 x y s1 r0 HP Hr. eapply dframeX_trans; [exact HP|eapply rec_frameX; exact Hr].
+  - intros s0 x y s1 r0 HP Hr. eapply dframeX_trans; [exact HP|]. eapply cell_step_frame. exact Hr.
   - intros sA aA HA. inversion HA; subst. apply dframeX_refl.
 Qed.
 
@@ -211,13 +222,12 @@ Lemma setattr_class_is_bind stk c_old c_new :
   fun acc k => bind acc (fun s _ => setattr_class modname rec stk c_old c_new (Ok s c_old) k).
 Proof. reflexivity. Qed.
 
-Lemma patch_class_frame stk ex s c_old c_new s' r :
-  patch_class modname bases_ok nm rec s stk c_old c_new = Ok s' r -> dframeX stk ex s s'.
+Lemma patch_class_body_frame stk ex c_old c_new s mapped s' r :
+  patch_class_body modname bases_ok nm rec stk c_old c_new s mapped = Ok s' r -> dframeX stk ex s s'.
 Proof.
-  unfold patch_class. destruct (lookup (hp s) c_old) as [o|] eqn:Eo; [|discriminate].
+  unfold patch_class_body. destruct (lookup (hp s) c_old) as [o|] eqn:Eo; [|discriminate].
   destruct o; try discriminate. destruct (lookup (hp s) c_new) as [n|]; [|discriminate].
   destruct n; try discriminate.
-  destruct (slots_differ nm (hp s) cdict cdict0); [intros H; inversion H; subst; apply dframeX_refl|].
   match goal with |- context [if ?c then Ok s c_new else _] => destruct c end;
     [intros H; inversion H; subst; apply dframeX_refl|].
   rewrite setattr_class_is_bind. intros H.
@@ -225,6 +235,28 @@ Proof.
   - intros k s0 s1 a1 _ HP HF. eapply dframeX_trans; [exact HP|].
     eapply setattr_class_body_frame. exact HF.
   - apply dframeX_upd. right. intros e He. congruence.
+Qed.
+
+Lemma map_bases_frame stk ex obs (k : st -> list addr -> res) :
+  (forall s l s' r, k s l = Ok s' r -> dframeX stk ex s s') ->
+  forall nbs s acc s' r, map_bases rec stk obs nbs s acc k = Ok s' r -> dframeX stk ex s s'.
+Proof.
+  intros Hk. induction nbs as [|nb nbs IH]; intros s acc s' r H; simpl in H.
+  - eapply Hk. exact H.
+  - destruct (find_old_base (hp s) obs nb) as [ob|].
+    + apply bind_ok in H. destruct H as [s2 [u [Hr H]]].
+      eapply dframeX_trans; [eapply rec_frameX; exact Hr|]. eapply IH. exact H.
+    + eapply IH. exact H.
+Qed.
+
+Lemma patch_class_frame stk ex s c_old c_new s' r :
+  patch_class modname bases_ok nm rec s stk c_old c_new = Ok s' r -> dframeX stk ex s s'.
+Proof.
+  unfold patch_class. destruct (lookup (hp s) c_old) as [o|] eqn:Eo; [|discriminate].
+  destruct o; try discriminate. destruct (lookup (hp s) c_new) as [n|]; [|discriminate].
+  destruct n; try discriminate.
+  destruct (slots_differ nm (hp s) cdict cdict0); [intros H; inversion H; subst; apply dframeX_refl|].
+  apply map_bases_frame. intros s0 l s1 r1. apply patch_class_body_frame.
 Qed.
 
 Lemma slot_step_is_bind stk i_old i_new :
